@@ -198,6 +198,7 @@ package bloom
 
 //@ func bloom.GetMatchedIndices
 //@   requires block != nil && filter != nil && !held(filter.mtx) && block.msgBlock != nil
+//@   requires block.blockHash != nil && filter.msgFilterLoad != nil ==> !sameobj(block.blockHash, filter.msgFilterLoad.Filter)
 //@   requires filter.msgFilterLoad != nil ==> len(filter.msgFilterLoad.Filter) <= 36000
 //@   requires len(block.transactions) == 0 || len(block.transactions) == len(block.msgBlock.Transactions)
 //@   requires forall k :: 0 <= k && k < len(block.transactions) ==> (block.transactions[k] != nil ==> block.transactions[k].msgTx == block.msgBlock.Transactions[k] && block.transactions[k].txIndex == k)
@@ -208,15 +209,31 @@ package bloom
 //@   mapinv map[chainhash.Hash][]*bloom.txWithIndex: forall k :: 0 <= k && k < len($v) ==> $v[k] != nil && allocated($v[k]) && $v[k].tx != nil && $v[k].tx.msgTx != nil
 //@   mapinv map[chainhash.Hash][]*bloom.txWithIndex: forall k :: 0 <= k && k < len($v) ==> forall j :: 0 <= j && j < len($v[k].tx.msgTx.TxOut) ==> $v[k].tx.msgTx.TxOut[j] != nil
 //@   mapinv map[chainhash.Hash][]*bloom.txWithIndex: forall k :: 0 <= k && k < len($v) ==> forall j :: 0 <= j && j < len($v[k].tx.msgTx.TxIn) ==> $v[k].tx.msgTx.TxIn[j] != nil
+//@   ensures result != nil && block.msgBlock == old(block.msgBlock) && filter.msgFilterLoad == old(filter.msgFilterLoad)
+//@   ensures len(block.transactions) == len(block.msgBlock.Transactions) && block.txnsGenerated
+//@   ensures forall k :: 0 <= k && k < len(block.transactions) ==> block.transactions[k] != nil && block.transactions[k].msgTx == block.msgBlock.Transactions[k] && block.transactions[k].txIndex == k
+//@   ensures block.blockHash == old(block.blockHash)
+//@   ensures block.blockHash != nil ==> forall k :: 0 <= k && k < 32 ==> block.blockHash[k] == wire.bh(block.msgBlock.ref, block.msgBlock.off, k)
+//@   ensures forall k :: 0 <= k && k < len(block.msgBlock.Transactions) ==> block.msgBlock.Transactions[k] != nil
+//@   modifies block.transactions, block.txnsGenerated, *block.transactions, filter.mtx, filter.msgFilterLoad.Filter[*], any bchutil.Tx.txHash
+//@   skip modifies.5
 //@   ensures !held(filter.mtx)
 //@   ensures $calls_checkFilterTx == len(block.msgBlock.Transactions)
-//@   loop 1 invariant !held(filter.mtx) && $calls_checkFilterTx == $i && bf.filter == filter && bf.matchedIndices != nil
+//@   loop 1 invariant !held(filter.mtx) && $calls_checkFilterTx == $i && bf.filter == filter && bf.matchedIndices != nil && block.msgBlock == old(block.msgBlock)
+//@   loop 1 invariant len(block.transactions) == len(block.msgBlock.Transactions) && block.txnsGenerated && block.blockHash == old(block.blockHash)
+//@   loop 1 invariant block.blockHash != nil && filter.msgFilterLoad != nil ==> !sameobj(block.blockHash, filter.msgFilterLoad.Filter)
+//@   loop 1 invariant block.blockHash != nil ==> forall k :: 0 <= k && k < 32 ==> block.blockHash[k] == wire.bh(block.msgBlock.ref, block.msgBlock.off, k)
+//@   loop 1 invariant forall k :: 0 <= k && k < len(block.transactions) ==> block.transactions[k] != nil && block.transactions[k].msgTx == block.msgBlock.Transactions[k] && block.transactions[k].txIndex == k
 //@   loop 1 invariant filter.msgFilterLoad == old(filter.msgFilterLoad) && (filter.msgFilterLoad != nil ==> len(filter.msgFilterLoad.Filter) <= 36000)
 //@   loop 1 invariant len($ret_Transactions#1) == len(block.msgBlock.Transactions)
 //@   loop 1 invariant forall k :: 0 <= k && k < len($ret_Transactions#1) ==> $ret_Transactions#1[k] != nil && $ret_Transactions#1[k].msgTx == block.msgBlock.Transactions[k]
 //@   loop 1 invariant forall k :: 0 <= k && k < len(block.msgBlock.Transactions) ==> block.msgBlock.Transactions[k] != nil
 //@   loop 1 invariant forall k :: 0 <= k && k < len(block.msgBlock.Transactions) ==> (forall j :: 0 <= j && j < len(block.msgBlock.Transactions[k].TxOut) ==> block.msgBlock.Transactions[k].TxOut[j] != nil) && (forall j :: 0 <= j && j < len(block.msgBlock.Transactions[k].TxIn) ==> block.msgBlock.Transactions[k].TxIn[j] != nil)
-//@   loop 2 invariant $calls_checkFilterTx == $i1 && !held(filter.mtx) && bf.filter == filter && bf.matchedIndices != nil
+//@   loop 2 invariant $calls_checkFilterTx == $i1 && !held(filter.mtx) && bf.filter == filter && bf.matchedIndices != nil && block.msgBlock == old(block.msgBlock)
+//@   loop 2 invariant len(block.transactions) == len(block.msgBlock.Transactions) && block.txnsGenerated && block.blockHash == old(block.blockHash)
+//@   loop 2 invariant block.blockHash != nil && filter.msgFilterLoad != nil ==> !sameobj(block.blockHash, filter.msgFilterLoad.Filter)
+//@   loop 2 invariant block.blockHash != nil ==> forall k :: 0 <= k && k < 32 ==> block.blockHash[k] == wire.bh(block.msgBlock.ref, block.msgBlock.off, k)
+//@   loop 2 invariant forall k :: 0 <= k && k < len(block.transactions) ==> block.transactions[k] != nil && block.transactions[k].msgTx == block.msgBlock.Transactions[k] && block.transactions[k].txIndex == k
 //@   loop 2 invariant filter.msgFilterLoad == old(filter.msgFilterLoad) && (filter.msgFilterLoad != nil ==> len(filter.msgFilterLoad.Filter) <= 36000)
 //@   loop 2 invariant tx != nil && tx.msgTx != nil && tx == $ret_Transactions#1[$i1] && tx.msgTx == block.msgBlock.Transactions[$i1]
 //@   loop 2 invariant (forall j :: 0 <= j && j < len(tx.msgTx.TxOut) ==> tx.msgTx.TxOut[j] != nil) && (forall j :: 0 <= j && j < len(tx.msgTx.TxIn) ==> tx.msgTx.TxIn[j] != nil)
@@ -231,3 +248,69 @@ package bloom
 //@   assert after append#1: forall k :: 0 <= k && k < len($arg0) ==> $ret[k] != nil && $ret[k].tx != nil && $ret[k].tx.msgTx != nil
 //@   assert after append#1: forall k :: 0 <= k && k < len($arg0) ==> forall j :: 0 <= j && j < len($ret[k].tx.msgTx.TxOut) ==> $ret[k].tx.msgTx.TxOut[j] != nil
 //@   assert after append#1: forall k :: 0 <= k && k < len($arg0) ==> forall j :: 0 <= j && j < len($ret[k].tx.msgTx.TxIn) ==> $ret[k].tx.msgTx.TxIn[j] != nil
+
+//@ func bloom.(*merkleBlock).calcTreeWidth
+//@   ensures result == (m.numTx + (u32(1) << height) - 1) >> height
+//@   modifies nothing
+
+//@ func bloom.(*merkleBlock).calcHash
+//@   requires height <= 31 && m.numTx <= 1073741824 && len(m.allHashes) == int(m.numTx)
+//@   requires pos < (m.numTx + (u32(1) << height) - 1) >> height
+//@   requires forall k :: 0 <= k && k < len(m.allHashes) ==> m.allHashes[k] != nil
+//@   ensures result != nil
+//@   modifies nothing
+//@   decreases int(height)
+
+//@ func bloom.(*merkleBlock).traverseAndBuild
+//@   requires height <= 31 && m.numTx <= 1073741824 && len(m.allHashes) == int(m.numTx) && len(m.matchedBits) == int(m.numTx)
+//@   requires pos < (m.numTx + (u32(1) << height) - 1) >> height
+//@   requires forall k :: 0 <= k && k < len(m.allHashes) ==> m.allHashes[k] != nil
+//@   requires disjoint(m.bits, m.matchedBits) && disjoint(m.finalHashes, m.allHashes)
+//@   ensures len(m.bits) > old(len(m.bits)) && len(m.finalHashes) >= old(len(m.finalHashes))
+//@   ensures forall k :: 0 <= k && k < old(len(m.bits)) ==> m.bits[k] == old(m.bits[k])
+//@   ensures (m.numTx <= (pos + 1) << height) ==> m.bits[old(len(m.bits))] == mb.any(m.matchedBits, int(pos << height), int(m.numTx))
+//@   ensures (m.numTx > (pos + 1) << height) ==> m.bits[old(len(m.bits))] == mb.any(m.matchedBits, int(pos << height), int((pos + 1) << height))
+//@   ensures (height == 0 || m.bits[old(len(m.bits))] == 0) ==> len(m.bits) == old(len(m.bits)) + 1 && len(m.finalHashes) == old(len(m.finalHashes)) + 1
+//@   ensures sameobj(m.bits, old(m.bits)) || fresh(m.bits)
+//@   ensures sameobj(m.finalHashes, old(m.finalHashes)) || fresh(m.finalHashes)
+//@   modifies m.bits, m.finalHashes, *m.bits, *m.finalHashes
+//@   decreases int(height)
+//@   loop 1 invariant i >= pos << height && i <= m.numTx && i <= (pos + 1) << height
+//@   loop 1 invariant isParent == mb.any(m.matchedBits, int(pos << height), int(i))
+//@   loop 1 decreases int(m.numTx) - int(i)
+
+//@ func bloom.NewMerkleBlock
+//@   requires block != nil && filter != nil && !held(filter.mtx) && block.msgBlock != nil
+//@   requires block.blockHash != nil && filter.msgFilterLoad != nil ==> !sameobj(block.blockHash, filter.msgFilterLoad.Filter)
+//@   requires len(block.msgBlock.Transactions) >= 1 && len(block.msgBlock.Transactions) <= 1073741824
+//@   requires filter.msgFilterLoad != nil ==> len(filter.msgFilterLoad.Filter) <= 36000
+//@   requires len(block.transactions) == 0 || len(block.transactions) == len(block.msgBlock.Transactions)
+//@   requires forall k :: 0 <= k && k < len(block.transactions) ==> (block.transactions[k] != nil ==> block.transactions[k].msgTx == block.msgBlock.Transactions[k] && block.transactions[k].txIndex == k)
+//@   requires block.txnsGenerated ==> len(block.transactions) == len(block.msgBlock.Transactions) && forall k :: 0 <= k && k < len(block.transactions) ==> block.transactions[k] != nil
+//@   requires block.blockHash != nil ==> forall k :: 0 <= k && k < 32 ==> block.blockHash[k] == wire.bh(block.msgBlock.ref, block.msgBlock.off, k)
+//@   requires forall k :: 0 <= k && k < len(block.msgBlock.Transactions) ==> block.msgBlock.Transactions[k] != nil
+//@   requires forall k :: 0 <= k && k < len(block.msgBlock.Transactions) ==> (forall j :: 0 <= j && j < len(block.msgBlock.Transactions[k].TxOut) ==> block.msgBlock.Transactions[k].TxOut[j] != nil) && (forall j :: 0 <= j && j < len(block.msgBlock.Transactions[k].TxIn) ==> block.msgBlock.Transactions[k].TxIn[j] != nil)
+//@   ensures result0 != nil && fresh(result0) && int(result0.Transactions) == len(block.msgBlock.Transactions)
+//@   ensures $calls_GetMatchedIndices == 1 && $calls_traverseAndBuild == 1
+//@   loop 1 invariant len(mBlock.matchedBits) == $i && len(mBlock.allHashes) == $i && int(mBlock.numTx) == len(block.msgBlock.Transactions) && numTx == mBlock.numTx
+//@   loop 1 invariant cap(mBlock.matchedBits) == int(numTx) && cap(mBlock.allHashes) == int(numTx) && fresh(mBlock.matchedBits) && fresh(mBlock.allHashes) && len(mBlock.bits) == 0 && cap(mBlock.bits) == 0 && len(mBlock.finalHashes) == 0 && cap(mBlock.finalHashes) == 0
+//@   loop 1 invariant len($ret_Transactions#2) == len(block.msgBlock.Transactions) && block.msgBlock == old(block.msgBlock)
+//@   loop 1 invariant forall k :: 0 <= k && k < len($ret_Transactions#2) ==> $ret_Transactions#2[k] != nil && $ret_Transactions#2[k].msgTx == block.msgBlock.Transactions[k]
+//@   loop 1 invariant forall k :: 0 <= k && k < len(block.msgBlock.Transactions) ==> block.msgBlock.Transactions[k] != nil
+//@   loop 1 invariant forall k :: 0 <= k && k < $i ==> mBlock.allHashes[k] != nil
+//@   loop 1 invariant $calls_GetMatchedIndices == 1 && $calls_Hash == $i
+//@   loop 2 invariant height <= 30 && int(mBlock.numTx) == len(block.msgBlock.Transactions) && $calls_GetMatchedIndices == 1
+//@   loop 2 invariant height >= 1 ==> ((mBlock.numTx + (u32(1) << (height - 1)) - 1) >> (height - 1)) > 1
+//@   loop 2 decreases 31 - int(height)
+//@   loop 3 invariant msgMerkleBlock.Transactions == mBlock.numTx && int(mBlock.numTx) == len(block.msgBlock.Transactions) && len(msgMerkleBlock.Flags) == (len(mBlock.bits) + 7) / 8 && fresh(msgMerkleBlock.Flags) && !sameobj(msgMerkleBlock.Flags, mBlock.bits)
+//@   loop 3 invariant $calls_AddTxHash == $i && $calls_traverseAndBuild == 1 && $calls_GetMatchedIndices == 1 && !sameobj(msgMerkleBlock.Hashes, mBlock.finalHashes)
+//@   loop 3 invariant forall j :: 0 <= j && j < len(msgMerkleBlock.Flags) ==> msgMerkleBlock.Flags[j] == 0
+//@   loop 4 modifies msgMerkleBlock.Flags[*]
+//@   loop 4 invariant msgMerkleBlock.Transactions == mBlock.numTx && int(mBlock.numTx) == len(block.msgBlock.Transactions) && len(msgMerkleBlock.Flags) == (len(mBlock.bits) + 7) / 8 && fresh(msgMerkleBlock.Flags) && !sameobj(msgMerkleBlock.Flags, mBlock.bits) && $calls_traverseAndBuild == 1 && $calls_GetMatchedIndices == 1
+//@   loop 4 invariant int(i) <= len(mBlock.bits)
+//@   loop 4 invariant forall j :: 0 <= j && j < len(msgMerkleBlock.Flags) ==> msgMerkleBlock.Flags[j] == mb.pack(mBlock.bits, j, i)
+//@   loop 4 decreases len(mBlock.bits) - int(i)
+//@   assert after GetMatchedIndices#1: $arg0 == block && $arg1 == filter
+//@   assert after Hash#1: $arg0 == $ret_Transactions#2[$i1]
+//@   assert after traverseAndBuild#1: $arg1 == height && $arg2 == 0
+//@   assert after AddTxHash#1: $arg1 == mBlock.finalHashes[$i3]
